@@ -896,4 +896,35 @@ theorem inv_runOps {c : Cfg} : ∀ (ops : List Op) (st : St), Inv c st → good 
     simp only [Bool.false_eq_true, if_false]
     exact ih st' i1 hg.2
 
+/-! ### id reuse -/
+
+theorem free_released {c : Cfg} {st : St} (hi : Inv c st) {h : Nat} {q : Handle}
+    (hq : st.hs[h]? = some q) (hact : q.active = true) :
+    q.id ∉ activeIds (apply c st (.free h)).1.hs := by
+  simp only [apply, hq, if_pos hact]
+  have hmem := mem_activeIds_of_get hq hact
+  exact (inv_release hi hq hact [.free q.id] (fun u hm =>
+    run_free_spec (hi.bound _ hmem) ((hm _).mpr hmem))).2
+
+theorem meas_released {c : Cfg} {st : St} (hi : Inv c st) {h : Nat} {q : Handle}
+    (hq : st.hs[h]? = some q) (hact : q.active = true) :
+    q.id ∉ activeIds (apply c st (.meas h false)).1.hs := by
+  simp only [apply, hq, if_pos hact]
+  have hst1 : ∃ st1, (if (q.id != 0) = true then freeUp c st else st) = st1 ∧ Inv c st1 ∧
+      st1.hs[h]? = some q := by
+    by_cases hid : (q.id != 0) = true
+    · rw [if_pos hid]
+      cases hnv : c.nv with
+      | false => rw [freeUp_generic st hnv]; exact ⟨st, rfl, hi, hq⟩
+      | true =>
+        obtain ⟨i1, _, _, i4⟩ := inv_freeUp hi hnv
+        exact ⟨_, rfl, i1, i4 h q hq (by simpa using hid)⟩
+    · rw [if_neg hid]; exact ⟨st, rfl, hi, hq⟩
+  obtain ⟨st1, e1, hi1, hq1⟩ := hst1
+  rw [e1]
+  have hmem := mem_activeIds_of_get hq1 hact
+  have := (inv_release hi1 hq1 hact [.use q.id, .free q.id] (fun u hm =>
+    run_meas_free_spec (hi1.bound _ hmem) ((hm _).mpr hmem))).2
+  simpa using this
+
 end NQ.QM
